@@ -23,7 +23,7 @@
 
   (`err:other` alone when the object cannot be opened / linked; a component is `panic` when that call
   panics).  `mem` lists maximal runs of consecutive mapped addresses with equal permissions:
-  `<addr>:<len>:<perm>:<hex>`, or `…:#<fnv1a-64>` for runs longer than 128 bytes.
+  `<addr>:<len>:<perm>:<hex>`, or `…:#<fnv1a-64>` for runs longer than 640 bytes.
   Output: `<model>\t<spec>`; the specification column has `fn=*` (the property does not fix names of
   function entries) and is `?` when the case is outside the property's domain (ill-formed headers,
   overlapping segments, addresses leaving u64).
@@ -68,7 +68,7 @@ structure Run where
 
 def Run.show (r : Run) : String :=
   let bs := r.rbytes.reverse
-  let body := if r.len ≤ 128 then String.join (bs.map byteHex)
+  let body := if r.len ≤ 640 then String.join (bs.map byteHex)
               else "#" ++ String.ofList (Nat.toDigits 16 (fnv bs).toNat)
   toString r.start ++ ":" ++ toString r.len ++ ":" ++ toString r.perm ++ ":" ++ body
 
